@@ -10,7 +10,7 @@ EXTENDS PipelineBase, TLC, Json
 CONSTANTS Menu,        \* name of the menu / prefix family (one per property)
           MaxTail,     \* bound on the tail length
           Layouts,     \* layouts to generate for
-          AllPlants,   \* C07: TRUE = every subset of the plantable files, FALSE = five representative subsets
+          AllPlants,   \* C07: TRUE = every set of at most two plantable files (+ some larger ones), FALSE = seven representative subsets
           Lite,        \* BOOLEAN: quick tier - fewer pre-states / behaviour configurations / run shapes
           Flavours     \* set of [newer, stateful, variant]: generator flavour (custom New / stateful output) and fixture variant
 
@@ -86,7 +86,7 @@ PlantSeq == << <<"p", "user.go">>, <<"p", "zz_generatedx.go">>, <<"p", "zz_gener
                <<"q", "zz_generated.old.go">>, <<"q", "zz_generatedx.go">>,
                (* outputs left behind by an earlier version of generators that still run (kept by ErrIgnore, else rewritten or removed) *)
                <<"p", "zz_generated.a.go">>, <<"p", "zz_generated.b.go">>, <<"q", "zz_generated.b.go">>, <<"r", "zz_generated.b.go">> >>
-PlantSets == IF AllPlants THEN SUBSET (1..Len(PlantSeq))
+PlantSets == IF AllPlants THEN {S \in SUBSET (1..Len(PlantSeq)) : Cardinality(S) <= 2} \cup {1..Len(PlantSeq), {4, 9, 10}, {2, 3, 7}, {8, 9, 10, 11}}     \* every pair
              ELSE { {}, 1..Len(PlantSeq), {4, 6}, {2, 3, 7}, {1, 5}, {8, 9, 10, 11}, {4, 9, 10} }
 PlantOps(S) == LET idx == SelectSeq([i \in 1..Len(PlantSeq) |-> i], LAMBDA i : i \in S)
                IN [k \in 1..Len(idx) |-> AddUser(PlantSeq[idx[k]][1], PlantSeq[idx[k]][2])]
